@@ -257,14 +257,38 @@ package table
 //@ spec pred rowsKeptUpTo(nw []Row, old []Row, n Int) Bool = forall i int :: {old[i]} 0 <= i && i < n ==> exists j int :: {nw[j]} 0 <= j && j < len(nw) && (nw[j] == old[i] || extends(nw[j], old[i]))
 //@ spec macro leftRowsKept(nw []Row, old []Row) Bool = rowsKeptUpTo(nw, old, len(old))
 
-// joinWithRange: merge join over the shared bindings. Its body sorts both tables through slice
-// values that alias the tables' backing arrays, which the verifier's slice model cannot represent:
-// the contract below is ASSUMED (nobody), not proved.
-//@ func joinWithRange
+// sortTablesData sorts both tables in place through slice values that alias the tables' backing
+// arrays (d := t.Data; sort.Slice(d, ...)), which the verifier's slice model (slices are values)
+// cannot represent: its contract is ASSUMED (nobody) - sort.Slice permutes, so afterwards the
+// tables hold the rows they held before, in some order, and no row has changed.
+//@ func sortTablesData
 //@   nobody
 //@   requires t != nil && t2 != nil && t != t2 && t.#lock_mu == 0 && t2.#lock_mu == 0
+//@   modifies t.Data, t2.Data, t.#lock_mu, t2.#lock_mu
+//@   ensures[locks] t.#lock_mu == 0 && t2.#lock_mu == 0
+//@   ensures[same-rows] len(t.Data) == old(len(t.Data)) && (forall i int :: {old(t.Data[i])} 0 <= i && i < old(len(t.Data)) ==> (exists j int :: {t.Data[j]} 0 <= j && j < len(t.Data) && t.Data[j] == old(t.Data[i])))
+
+// joinable reads the two rows and changes nothing.
+//@ func joinable
+//@   opt terminates
+//@   loop 0 invariant true
+
+// joinWithRange: merge join over the shared bindings (the overlapping-bindings path of
+// LeftOptionalJoin). Proved: every row the left table had is extended by some row of the result -
+// each left row yields its matches (extendRowWith, the left row winning) or, when it has none, itself
+// with NULL cells (extendRow). Only these obligations are generated (opt obligations): rowLess is
+// called without its `sortable` precondition being established here (a row lacking a shared binding
+// makes it call log.Fatalf, i.e. the function does not return), and which right rows are matched -
+// the multiplicities - is not stated.
+//@ func joinWithRange
+//@   opt obligations post invariant frame lock
+//@   requires t != nil && t2 != nil && t != t2 && t.#lock_mu == 0 && t2.#lock_mu == 0
 //@   modifies t.mbs, t.AvailableBindings, t.Data, t2.Data, t.#lock_mu, t2.#lock_mu
-//@   ensures t.#lock_mu == 0 && t2.#lock_mu == 0 && leftRowsKept(t.Data, old(t.Data))
+//@   ensures[locks] t.#lock_mu == 0 && t2.#lock_mu == 0
+//@   ensures[left-rows-kept] leftRowsKept(t.Data, old(t.Data))
+//@   loop 2 invariant[kept-so-far] 0 <= $i && $i <= len(t.Data) && rowsKeptUpTo(res, t.Data, $i)
+//@   loop 3 invariant[kept-so-far] rowsKeptUpTo(res, t.Data, $outer) && (extended ==> (exists m int :: {res[m]} 0 <= m && m < len(res) && extends(res[m], t1r)))
+//@   loop 4 invariant[kept-so-far] rowsKeptUpTo(res, t.Data, $outer) && (extended ==> (exists m int :: {res[m]} 0 <= m && m < len(res) && extends(res[m], t1r)))
 
 // LeftOptionalJoin (C10): no row of the left table is lost.
 //@ func (t *Table) LeftOptionalJoin
